@@ -308,6 +308,12 @@ pub fn gen_request(s: &mut Src, cfg: &GenCfg, notes: &mut Notes, out: &mut Vec<u
             out.push(b':');
             out.extend_from_slice(val.as_bytes());
             out.extend_from_slice(b"\r\n");
+            if s.chance(20) {
+                // a second Expect line (the flag is set if ANY occurrence asks for it)
+                notes.add("expect_dup");
+                let v2 = ["103-checkpoint", "100-continue", "102-processing"][s.below(3)];
+                out.extend_from_slice(format!("Expect: {}\r\n", v2).as_bytes());
+            }
         }
         if i < nlines {
             header_line(s, cfg, notes, out);
